@@ -563,8 +563,10 @@ func (w *WAL) StoreLogs(logs []*raft.Log) error {
 }
 
 func (w *WAL) awaitRotationLocked() {
-	awaitCh := w.awaitRotate
-	if awaitCh != nil {
+	// Loop: while we waited without the lock another writer may have filled the
+	// new tail and queued the next rotation, which must complete before us too.
+	for w.awaitRotate != nil {
+		awaitCh := w.awaitRotate
 		// We managed to race for writeMu with the background rotate operation which
 		// needs to complete first. Wait for it to complete.
 		w.writeMu.Unlock()
